@@ -48,10 +48,13 @@ def calls(prog, run):
 
 BIND = [
     ("algorithms.ssi.SSIdat", "plot_stab", "stab_plot", {"Fn": "self.result.Fn_poles", "Lab": "self.result.Lab", "step": "self.run_params.step", "ordmax": "self.run_params.ordmax",
-                                                        "ordmin": "self.run_params.ordmin", "Fn_cov": "self.result.Fn_poles_cov"}),
-    ("algorithms.ssi.SSIdat", "plot_cluster", "cluster_plot", {"Fn": "self.result.Fn_poles", "Xi": "self.result.Xi_poles", "Lab": "self.result.Lab", "ordmin": "self.run_params.ordmin"}),
-    ("algorithms.plscf.pLSCF", "plot_stab", "stab_plot", {"Fn": "self.result.Fn_poles", "Lab": "self.result.Lab", "ordmax": "self.run_params.ordmax", "ordmin": "self.run_params.ordmin"}),
-    ("algorithms.plscf.pLSCF", "plot_cluster", "cluster_plot", {"Fn": "self.result.Fn_poles", "Xi": "self.result.Xi_poles", "Lab": "self.result.Lab", "ordmin": "self.run_params.ordmin"}),
+                                                        "ordmin": "self.run_params.ordmin", "Fn_cov": "self.result.Fn_poles_cov", "freqlim": "freqlim", "hide_poles": "hide_poles"}),
+    ("algorithms.ssi.SSIdat", "plot_cluster", "cluster_plot", {"Fn": "self.result.Fn_poles", "Xi": "self.result.Xi_poles", "Lab": "self.result.Lab", "ordmin": "self.run_params.ordmin",
+                                                              "freqlim": "freqlim", "hide_poles": "hide_poles"}),
+    ("algorithms.plscf.pLSCF", "plot_stab", "stab_plot", {"Fn": "self.result.Fn_poles", "Lab": "self.result.Lab", "ordmax": "self.run_params.ordmax", "ordmin": "self.run_params.ordmin",
+                                                         "freqlim": "freqlim", "hide_poles": "hide_poles"}),
+    ("algorithms.plscf.pLSCF", "plot_cluster", "cluster_plot", {"Fn": "self.result.Fn_poles", "Xi": "self.result.Xi_poles", "Lab": "self.result.Lab", "ordmin": "self.run_params.ordmin",
+                                                               "freqlim": "freqlim", "hide_poles": "hide_poles"}),
     ("algorithms.fdd.FDD", "plot_CMIF", "CMIF_plot", {"S_val": "self.result.S_val", "freq": "self.result.freq"}),
 ]
 
